@@ -56,6 +56,9 @@ def run(chk, repo, tier):
     chk.clause('C10-d', 'no function writes a module-level object (positive-control fixture must match)', 2)
     chk.clause('C10-e', "a plane's recorded tilt is history independent (reader/writer slot agreement)", 1)
     chk.clause('C10-f', 'Field.__mul__ builds new tilt lists; Plane.copy is deep; copies only are written when inplace=False', 3)
+    chk.clause('C10-g', 'a reused scratch buffer does not influence the result: the used region is zeroed, filled and transformed consistently', 4)
+    from . import c09 as _c09
+    _c09.run(common.Remap(chk, {'C09-d': 'C10-g'}), repo, tier)
     chk.not_decided += ['bit-for-bit repeatability (assumes numpy/scipy are pure)']
 
     eff = Effects(repo)
